@@ -278,6 +278,8 @@ func alphabet(nb, nk, nv int) []op {
 	return append(a, op{kind: "flush"}, op{kind: "cancel"})
 }
 
+func init() { vh.Register("C17", Run) }
+
 // Run executes the C17 correspondence and oracle checks.
 func Run(r *vh.Run) {
 	r.Rule = "exhaustive: every op sequence over the alphabet up to the stated length, on every backend (prefix-closed; a case is one (sequence, backend) pair); random: sequences of 20-400 ops over 3 buckets / 6 keys / 4 values drawn from one PRNG; chain: DBStore histories replayed over each backend. non-trivial = at least one get/iter of the sequence observes a non-empty result; distinct = distinct (backend, op sequence)"
